@@ -1970,6 +1970,16 @@ def _np_sqrt(interp, args, kwargs):
     return interp.native(np.sqrt, args, kwargs)
 
 
+@model(np.sum)
+def _np_sum(interp, args, kwargs):
+    v = interp.resolve(args[0])
+    if isinstance(v, SArr) and len(args) == 1 and not kwargs:
+        return arr_method(interp, v, "sum", [], {})
+    if all_concrete(args):
+        return interp.native(np.sum, args, kwargs)
+    raise OutsideSubset("np.sum with axis / of a non-array symbolic value")
+
+
 @model(np.round)
 def _np_round(interp, args, kwargs):
     v = interp.resolve(args[0])
